@@ -2,7 +2,7 @@
    correspondence check.  ExtrOcamlBasic only: bool/option/unit/prod/list/sumbool/sumor map to
    the OCaml builtins; N, positive, nat stay the extracted inductive types. *)
 From Coq Require Import Extraction ExtrOcamlBasic.
-From Pocket Require Import Bytes Layout Access MatchSpec Hex Hll Ctor.
+From Pocket Require Import Bytes Layout Access MatchSpec Hex Hll Ctor Keys Db ADb.
 Extraction "../runner/model.ml"
   N.of_nat N.to_nat N.add N.mul N.div N.modulo N.eqb N.ltb N.leb N.sub
   len beq
@@ -13,4 +13,9 @@ Extraction "../runner/model.ml"
   ev_kind ev_created ev_id ev_pk ev_sig ev_tags ev_content ev_delineate
   fl_ids fl_authors fl_kinds fl_tags fl_limit fl_since fl_until
   tags_from_parts event_from_parts filter_from_parts
+  db_init store_event remove_event vanish find_events get_event_by_id get_event_by_offset has_event
+  event_is_deleted naddr_is_deleted_asof find_replaceable_event find_param_replaceable_event stats
+  db_extra_put reopen rebuild is_replaceable is_param_replaceable is_ephemeral addr_parse
+  a_init a_store a_remove a_vanish a_qualifying a_query a_redactable scrape_covered is_scrape a_extra_put
+  has_id find_id del_time at_addr addr_of
   read_hex write_hex hll_new add_element merge from_hex to_hex zero_count.
